@@ -23,6 +23,8 @@ var props = map[string]propFunc{
 	"C06": runC06,
 	"C07": runC07,
 	"C08": runC08,
+	"C10": runC10,
+	"C11": runC11,
 	"C16": runC16,
 	"C17": runC17,
 }
